@@ -152,7 +152,7 @@ func (this *upceanReader) decodeRowWithStartRange(
 
 	var resultPointCallback gozxing.ResultPointCallback
 	if hint, ok := hints[gozxing.DecodeHintType_NEED_RESULT_POINT_CALLBACK]; ok {
-		resultPointCallback = hint.(gozxing.ResultPointCallback)
+		resultPointCallback, _ = hint.(gozxing.ResultPointCallback)
 	}
 	symbologyIdentifier := 0
 
